@@ -277,7 +277,11 @@ def wellFormed (out : List Rec) : Bool :=
   | .done :: pre => pre.all (!·.isDone)
   | _ => false
 
-/-! ## Shapes regenerated from the source (`Gen/IpcStreamShape.lean`) -/
+/-! ## Shapes regenerated from the source (`Gen/IpcStreamShape.lean`)
+
+Expression text is normalised by the extractor (extract/normalise.go): roles ($es $qs $resp $req
+$filters $ackCh $respCh $done $remaining $v $ok $f $e) instead of identifier names, constants by value,
+operands ordered, one-line helpers inlined, definitions sorted. -/
 
 /-- `handleStream`: how the client's filter string reaches the stream -/
 structure StreamRequestShape where
@@ -294,8 +298,8 @@ structure StreamRequestShape where
 
 /-- the string the client sent is parsed verbatim and the parsed filters are the stream's filters -/
 def StreamRequestShape.ok (s : StreamRequestShape) : Bool :=
-  s.parseCalls == 1 && s.parseArg == "req.Type" && s.filtersFrom == "ParseEventFilter(req.Type)" &&
-  s.ctorFilterArg == "filters" && s.writes == 0
+  s.parseCalls == 1 && s.parseArg == "$req.Type" && s.filtersFrom == "ParseEventFilter($req.Type)" &&
+  s.ctorFilterArg == "$filters" && s.writes == 0
 
 structure EventStreamShape where
   /-- `for _, f := range <filterRange>` at the head of HandleEvent -/
@@ -310,8 +314,8 @@ structure EventStreamShape where
   deriving DecidableEq, Repr, Inhabited
 
 def EventStreamShape.ok (s : EventStreamShape) : Bool :=
-  s.filterRange == "es.filters" && s.filterCond == "f.Invoke(e)" && s.matchJumps && s.unmatchedReturns &&
-  s.chanCap == ipcChanCap && s.streamRange == "es.eventCh"
+  s.filterRange == "$es.filters" && s.filterCond == "$f.Invoke($e)" && s.matchJumps && s.unmatchedReturns &&
+  s.chanCap == ipcChanCap && s.streamRange == "$es.eventCh"
 
 /-- one receive case of the select in `queryResponseStream.Stream` -/
 structure RecvShape where
@@ -344,12 +348,12 @@ structure QueryLoopShape where
 
 /-- the deadline timer is armed unconditionally from the query's deadline, the channels are the query's -/
 def canonicalPrologue : List (String × String) :=
-  [("remaining", "time.Until(resp.Deadline())"), ("done", "time.After(remaining)"),
-   ("ackCh", "resp.AckCh()"), ("respCh", "resp.ResponseCh()")]
+  [("$ackCh", "$resp.AckCh()"), ("$done", "time.After($remaining)"),
+   ("$remaining", "time.Until($resp.Deadline())"), ("$respCh", "$resp.ResponseCh()")]
 
 def canonicalRecvs : List RecvShape :=
-  [{ ch := "ackCh", okFlag := true, closedBranchExact := true, send := "qs.sendAck(a)", sendFailureReturns := true, extraStmts := 0 },
-   { ch := "respCh", okFlag := true, closedBranchExact := true, send := "qs.sendResponse(r.From, r.Payload)", sendFailureReturns := true, extraStmts := 0 }]
+  [{ ch := "$ackCh", okFlag := true, closedBranchExact := true, send := "$qs.sendAck($v)", sendFailureReturns := true, extraStmts := 0 },
+   { ch := "$respCh", okFlag := true, closedBranchExact := true, send := "$qs.sendResponse($v.From, $v.Payload)", sendFailureReturns := true, extraStmts := 0 }]
 
 /-- Variation points of the select loop. -/
 structure QVariant where
@@ -371,8 +375,8 @@ def qVariantOf (sh : QueryLoopShape) : QVariant :=
   let okOf := fun (c : String) => match find c with
     | some r => r.okFlag && r.closedBranchExact && r.sendFailureReturns && r.extraStmts == 0
     | none => false
-  { ackOk := okOf "ackCh" && (find "ackCh").map (·.send) == some "qs.sendAck(a)",
-    respOk := okOf "respCh" && (find "respCh").map (·.send) == some "qs.sendResponse(r.From, r.Payload)",
+  { ackOk := okOf "$ackCh" && (find "$ackCh").map (·.send) == some "$qs.sendAck($v)",
+    respOk := okOf "$respCh" && (find "$respCh").map (·.send) == some "$qs.sendResponse($v.From, $v.Payload)",
     doneOnRespClose := !(sh.sendDoneSites == 1 && sh.breaksOrGotos == 0 && sh.doneCases == 1 && sh.doneCaseSendsAndReturns &&
         !sh.loopHasCondition && sh.recvs.length == 2),
     returnIfExpired := !(sh.prologue == canonicalPrologue && sh.prologueOther == 0 && sh.afterLoop == 0) }
